@@ -83,9 +83,14 @@ def handle (line : String) : Out :=
     let r : Option Out := do
       let ins ← section? "in" ins; let coll ← section? "coll" coll; let req ← section? "req" req
       let wd ← section? "wd" wd; let vk ← section? "vk" vk; let bw ← section? "bw" bw
-      let hasAlonzo ← (match era with
+      -- "+nc1" / "+nc2": a non-canonically encoded body; the model does not see encodings
+      let base := (era.splitOn "+").headD ""
+      let ncOk := match era.splitOn "+" with
+        | [_] => true | [_, v] => v = "nc1" ∨ v = "nc2" | _ => false
+      if !ncOk then none else
+      let hasAlonzo ← (match base with
         | "shelley" | "allegra" | "mary" => some false
-        | "alonzo" | "babbage" | "conway" => some true
+        | "alonzo" | "babbage" | "conway" | "dijkstra" => some true
         | _ => none)
       let ins ← ins.mapM parseOwner
       let coll ← coll.mapM parseOwner
@@ -94,6 +99,9 @@ def handle (line : String) : Out :=
       let vk ← vk.mapM parseVk
       let bw ← bw.mapM parseBw
       if !hasAlonzo && (!coll.isEmpty || !req.isEmpty) then none else
+      -- Dijkstra guards are a duplicate-free set: a repeated required signer does not decode
+      if base = "dijkstra" ∧ req.eraseDups.length ≠ req.length then
+        some { model := "decode-err", spec := "*" } else
       let required : List H := req.map (fun k => H.kh (VK.k k)) ++ wd.filterMap id
       let t : Tx VK SG H Nat Nat Nat :=
         { txId := 0, inputs := ins, collateral := coll, required := required,
